@@ -10,6 +10,7 @@
 -/
 import Dirk.Lemmas.DkgLife
 import Dirk.Lemmas.LifeJudge
+import Dirk.Props.KernelsEq
 
 namespace Dirk.Dkg
 
@@ -78,5 +79,14 @@ theorem C17_legacy_counterexample :
     let c6 := (onExecute c5 1 1 "DW/a").1
     (onExecute c4 2 1 "DW/a").2 = .refused ∧ (onCommit c6 3 1 "DW/a").2 = .refused := by
   decide
+
+/-- **tie by translation.** The expiry-on-read of `active` and the completeness guards of `onCommit` are the functions
+    translated on every run from the Go source of `getGeneration` (generation.go) and of the checks at the top of
+    `OnCommit` (service.go). -/
+theorem C17_kernel_is_source (c : Cluster) (x : DInst) (acct : String) (s : Session) :
+    active c x acct = Dirk.activeWrap c x acct ∧
+    Dirk.commitChecks s = Dirk.Gen.commitAcceptsGen s.contributed.length s.contributed.length s.participants.length
+      (s.participants.map (fun p => (s.contributed.contains p, s.contributed.contains p))) :=
+  ⟨Dirk.active_eq_gen c x acct, Dirk.commitChecks_eq_gen s⟩
 
 end Dirk.Dkg
